@@ -508,6 +508,13 @@ def main():
             per_alg[case.split()[1]] = per_alg.get(case.split()[1], 0) + len(gens)
             if notes.get("ref_not_dominated"): ck.notes.setdefault("ref_not_dominated_cases", []).append(case)
             if bad:
+                key0 = "steady-state:reported-hv-decreases-by-penalty" if "REPORTED unpenalized" in bad[0] else None
+                if key0 and ck.match_known(key0):
+                    known_o = True
+                    if key0 not in okeys:
+                        okeys.add(key0)
+                        ck.violation(key0, {"case": case, "monitor": bad[:5]}, bad[0])   # prints the KNOWN-FINDING line once
+                    continue
                 om += 1
                 if om <= 3:
                     cf = ck.write_replay("O_case_%d.txt" % om, case + "\n")
